@@ -11,14 +11,16 @@ from __future__ import annotations
 
 import os
 import random
+import re
 import sys
 import threading
+import types
 
 from . import env
 from . import probes
 
 HTML5LIB_DIR = os.path.join(env.REPO, "html5lib") + os.sep
-MAX_STEPS = 300000
+MAX_STEPS = 1200000
 
 
 class StepBudgetExceeded(BaseException):
@@ -37,11 +39,12 @@ class StepBudgetExceeded(BaseException):
 #       in html5lib (e.g. the entities trie shared by every tokenizer),
 #   (d) methods naming a mutable container that is a class attribute.
 _MUTABLE = (dict, list, set, bytearray)
+_IMMUTABLE_GLOBALS = (type, types.ModuleType, types.FunctionType, types.BuiltinFunctionType, types.MethodType, str, bytes, int, float,
+                      complex, tuple, frozenset, bool, type(None), re.Pattern, property, staticmethod, classmethod, type(Ellipsis))
 _shared = {"built": False}
 
 
 def _build_shared_index():
-    import types
     const_mod = sys.modules.get("html5lib.constants")
     const_ids = {id(v) for v in vars(const_mod).values()} if const_mod else set()
     mutable_globals = {}     # module name -> set of global names bound to mutable containers
@@ -57,6 +60,11 @@ def _build_shared_index():
             if name.startswith("__"):
                 continue
             if isinstance(v, _MUTABLE) and id(v) not in const_ids:
+                names.add(name)
+            elif not isinstance(v, _IMMUTABLE_GLOBALS) and not type(v).__module__.startswith("html5lib") \
+                    and id(v) not in const_ids:
+                # anything else that may carry state between calls: scratch buffers (io.StringIO), iterators, generators,
+                # incremental encoders/decoders, regex scanners, lru_cache wrappers, arbitrary foreign objects
                 names.add(name)
             elif (not isinstance(v, (type, types.ModuleType, types.FunctionType, types.BuiltinFunctionType, str, bytes, int,
                                      float, tuple, frozenset, bool, type(None)))
@@ -143,7 +151,8 @@ class _Worker(object):
 
 
 class Baton(object):
-    def __init__(self, fns, rng=None, quanta=None, p_hot=0.5, p_warm=0.02, p_cold=0.005):
+    def __init__(self, fns, rng=None, quanta=None, p_hot=0.5, p_warm=0.02, p_cold=0.005, opcodes=True):
+        self.opcodes = opcodes
         self.workers = [_Worker(i, fn) for i, fn in enumerate(fns)]
         self.sched_sem = threading.Semaphore(0)
         self.rng = rng
@@ -164,9 +173,28 @@ class Baton(object):
 
         def make_local(hot):
             p = baton.p_hot if hot else baton.p_cold
+            p_op = p / 4.0
 
             def local(frame, event, arg):
                 if event != "line":
+                    if event != "opcode":
+                        return local
+                    # hot frames are traced per bytecode: a window between two
+                    # instructions of one source line is a pre-emption point too
+                    w.steps += 1
+                    baton._cur_steps += 1
+                    baton.total_steps += 1
+                    if baton.total_steps > MAX_STEPS:
+                        baton.overrun = True
+                        raise StepBudgetExceeded()
+                    if baton.replay is not None:
+                        if w.quantum_left is not None:
+                            w.quantum_left -= 1
+                            if w.quantum_left <= 0:
+                                baton._yield(w, frame, hot)
+                        return local
+                    if baton.rng.random() < p_op:
+                        baton._yield(w, frame, hot)
                     return local
                 w.steps += 1
                 baton._cur_steps += 1
@@ -191,7 +219,10 @@ class Baton(object):
             if baton.overrun:
                 raise StepBudgetExceeded()
             if frame.f_code.co_filename.startswith(prefix):
-                return local_hot if frame_is_hot(frame) else local_cold
+                if frame_is_hot(frame):
+                    frame.f_trace_opcodes = baton.opcodes
+                    return local_hot
+                return local_cold
             return None
         return tracer
 
@@ -304,7 +335,9 @@ def gen_case(rng):
         threads.append({"ops": ops})
     return {"prop": "C12", "stream": "M3", "threads": threads, "cold": rng.random() < 0.7,
             "sched_seed": rng.getrandbits(48), "p_hot": rng.choice([0.5, 0.5, 0.2, 0.05]),
-            "p_cold": rng.choice([0.005, 0.001, 0.02])}
+            "p_cold": rng.choice([0.005, 0.001, 0.02]),
+            # half of the runs trace hot frames per bytecode (pre-emption inside a source line)
+            "opcodes": rng.random() < 0.5}
 
 
 def _api_tb(builder):
@@ -402,10 +435,12 @@ def execute(case):
             return [run_api_op(op, private) for op in tspec["ops"]]
         return fn
     fns = [make_fn(t) for t in case["threads"]]
+    opcodes = bool(case.get("opcodes", False))
     if case.get("quanta") is not None:
-        b = Baton(fns, quanta=[tuple(q) for q in case["quanta"]])
+        b = Baton(fns, quanta=[tuple(q) for q in case["quanta"]], opcodes=opcodes)
     else:
-        b = Baton(fns, rng=random.Random(case["sched_seed"]), p_hot=case.get("p_hot", 0.5), p_cold=case.get("p_cold", 0.005))
+        b = Baton(fns, rng=random.Random(case["sched_seed"]), p_hot=case.get("p_hot", 0.5), p_cold=case.get("p_cold", 0.005),
+                  opcodes=opcodes)
     results, errors = b.run()
     res["quanta"] = [list(q) for q in b.taken]
     stats["steps"] = b.total_steps
@@ -422,7 +457,7 @@ def execute(case):
     stats["fault_free"] = b.preemptions == 0
     res["digest"] = env.digest((b.taken, [[r[:1] + (env.digest(r[1:]),) for r in (rs or [])] for rs in results]))
     if b.overrun:
-        return _fail(res, "liveness", "more than %d line steps in one threaded run (the same operations need a few thousand "
+        return _fail(res, "liveness", "more than %d line/bytecode steps in one threaded run (the same operations need a few thousand "
                      "when run alone)" % MAX_STEPS)
     for tid, e in enumerate(errors):
         if e is not None:
